@@ -19,6 +19,20 @@ esac
 variant=plain
 case "$prop" in C08|C09) variant=vsched;; C05) variant=maporder;; esac
 MAPORDER_PKGS="./pkg/engine ./pkg/action ./pkg/release/util ./pkg/chart/v2/util ./pkg/chart/v2/loader ./pkg/chart/v2 ./pkg/cli/values"
+tier=quick
+for a in "$@"; do case "$a" in thorough) tier=thorough;; esac; done
+racepass() {
+  # separate free-running pass under Go's race detector (supporting evidence, see DESIGN.md §4)
+  ( cd harness && go build -race -o ../bin/racepass ./cmd/racepass ) >bin/race-build.log 2>&1 || { echo '{"built":false}' >bin/racepass.json; return; }
+  GORACE="exitcode=66 halt_on_error=0" ./bin/racepass 60 >bin/racepass.out 2>&1
+  rc=$?
+  n=$(grep -c "WARNING: DATA RACE" bin/racepass.out)
+  printf '{"built":true,"iterations":60,"exit_code":%d,"race_reports":%d}\n' "$rc" "$n" >bin/racepass.json
+}
+if [ "${1:-}" = check ] && [ "$tier" = thorough ] && { [ "$prop" = C09 ] || [ "$prop" = C05 ]; }; then
+  racepass
+  export VERIF_RACEPASS="$VERIF_DIR/bin/racepass.json"
+fi
 fail_build() {
   # The tree under test does not build: nothing can be decided. Not an alarm.
   echo "HARNESS-BUILD-FAILED (see bin/build.log)" >&2
